@@ -247,7 +247,8 @@ def rule_b(ctx, R, sector, scan, uniform_arg):
                     if cb is not None:
                         contains = cb
                         a0 = v.root(t3["args"][0])
-                        sub_args = [l["i"] for l in scan.locals[1:scan.arg_count + 1] if common.ty_is_ref_to_adt(ctx.facts, l["ty"], "TropicalSubGraphId")]
+                        sub_args = [l["i"] for l in scan.locals[1:scan.arg_count + 1] if common.ty_is_ref_to_adt(ctx.facts, l["ty"], "TropicalSubGraphId")
+                                    or ((ctx.facts.ty(l["ty"]) or {}).get("k") == "adt" and str((ctx.facts.ty(l["ty"]) or {}).get("path", "")).endswith("TropicalSubGraphId"))]
                         src_ok = a0.kind == "arg" and a0.base[1] in sub_args and not a0.path
     ctx.ob("C06-b", "loop iterates the edge enumeration of the subgraph parameter directly (%s)" % src_desc, src_ok, fn,
            "scan-iterates-contains-edges", where=pat.where(nt))
@@ -260,12 +261,17 @@ def rule_b(ctx, R, sector, scan, uniform_arg):
     def pair_of(s):
         """The (edge, graph) tuple a return statement hands back: built in place, or a local that is built once as a tuple."""
         rv = s["rv"]
-        if rv["k"] == "aggregate" and rv["agg"] == "tuple":
+
+        def is_pair(a_):
+            # a tuple, or a private two-field struct standing in for it (`EdgeRemoval { edge, remaining }`)
+            return a_["k"] == "aggregate" and (a_["agg"] == "tuple" or (a_["agg"] == "adt" and len(a_.get("ops", [])) == 2
+                                                                           and not str(a_.get("adt", "")).startswith(("core::", "std::", "alloc::"))))
+        if is_pair(rv):
             return rv
         if rv["k"] == "use" and rv["op"]["k"] in ("copy", "move") and not rv["op"]["place"]["p"]:
             r_ = v.root(rv["op"])
             d_ = v.rvalue_of(r_) if r_.kind == "local" else None
-            if d_ is not None and d_["k"] == "aggregate" and d_["agg"] == "tuple":
+            if d_ is not None and is_pair(d_):
                 return d_
         return None
     for bi, si, s in pat.stmts(scan):
